@@ -8,6 +8,11 @@
 # c20/check.sh c12 --replay <file> [--log]   re-run one persisted failing schedule of that family
 # c20/check.sh c12 --list <quick|thorough>   print that family's workloads
 #
+# C20 workloads: 16 drain-to-end-of-stream families (scenario ids 0..) and 16 teardown families (ids 100000..: the consumer
+# abandons / stops / stalls and the last handle is dropped over a ring that is exactly full, partly filled or empty).
+# Oracles: C20.identity / .once / .order / .eos / .balance / .ub and C20.release (every payload created is released exactly
+# once: kinds leaked, released_twice, released_while_queued). Miri (thorough) runs modes sp, mp and td, none with -Zmiri-ignore-leaks.
+#
 # Rebuilds the harness (and rustrtc, a path dependency on /repo's working tree, hooks on) and runs it.
 # Exit 0 held (KNOWN-FINDING lines allowed) / 1 violation (VIOLATION property=<C20|C12> replay=<path>) / 2 harness error.
 # Honours VERIF_SEED (default 20260925). <root> is the parent directory of this crate.
